@@ -18,6 +18,10 @@ from .world import LINK_CLASSES
 
 KNOWN_OPEN = set()
 NAMES = ("foo", "bar", "baz", "name", "x_y")
+# names that also exist on the link's class: a read through the link finds the class attribute first
+# (excluded from the read oracle, DESIGN.md C20), but a *write* through the link must still land on the target
+CLASS_LEVEL_NAMES = ("separator", "iter_path_reverse")
+VALUES = (0, 1, True, False, 1.0, None, "", "a", [1], [], (1,), {"k": 1})
 MISSING = ("<missing>",)
 
 
@@ -73,7 +77,13 @@ def pre_gen_factory(store):
             k = rng.choice(NAMES)
             if rng.random() < 0.15 and store.cls[i] not in LINK_CLASSES and k in store.attrs[i] and k != "name":
                 return {"op": "delattr", "n": i, "k": k}
-            v = rng.choice((step, "s%d" % step, None, 0))
+            v = rng.choice((step, "s%d" % step)) if rng.random() < 0.4 else rng.choice(VALUES)
+            if isinstance(v, tuple):
+                v = list(v)  # JSON has no tuples; keep replays faithful
+            elif isinstance(v, (list, dict)):
+                v = type(v)(v)  # a fresh object per operation, as in a replay
+            if links and rng.random() < 0.08:
+                return {"op": "setattr", "n": rng.choice(links), "k": rng.choice(CLASS_LEVEL_NAMES), "v": "w%d" % step}
             return {"op": "setattr", "n": i, "k": k, "v": v}
         if r < cfg["a_rate"] + 0.12 and n < len(cfg["classes"]) + 4:
             # a link constructed with keyword attributes, often to another link
@@ -100,7 +110,9 @@ def check_reads(step, world, store, res, op):
                 got = MISSING
             want = store.expected(i, k)
             res.bump("attr_reads")
-            if got is not want and got != want:
+            # the very object that was stored must come back (an equal value of another type, or an
+            # equal copy, means the write did not go where the read looks)
+            if got is not want and not (type(got) is type(want) and got == want and not isinstance(want, (list, dict))):
                 via = "link %d (-> holder %d)" % (i, store.holder(i)) if store.cls[i] in LINK_CLASSES else "node %d" % i
                 raise Violation(
                     "C20",
@@ -118,6 +130,21 @@ def run(cfg, ops=None, rng=None):
     def handle(step, world, model, res, op):
         i, k = op["n"], op["k"]
         node = world.nodes[i]
+        if op["op"] == "setattr" and k in CLASS_LEVEL_NAMES:
+            setattr(node, k, op["v"])
+            h = store.holder(i)
+            res.bump("class_level_writes")
+            got = world.nodes[h].__dict__.get(k, MISSING)
+            if got is not op["v"]:
+                raise Violation(
+                    "C20", "forward-write", step, "forward-write:classname",
+                    "step %d %s: the value assigned through link %d is not stored on its target %d (target holds %r)" % (step, op, i, h, got),
+                )
+            mine = world.nodes[i].__dict__.get(k, MISSING) if store.cls[i] in LINK_CLASSES else MISSING
+            if mine is not MISSING:
+                raise Violation("C20", "forward-write", step, "forward-write:kept", "step %d %s: the link kept %r=%r for itself" % (step, op, k, mine))
+            del world.nodes[h].__dict__[k]
+            return
         if op["op"] == "setattr":
             setattr(node, k, op["v"])
             store.attrs[store.holder(i)][k] = op["v"]
